@@ -36,13 +36,12 @@ ASSUMPTIONS = [
     'compile-time / fixed / bounded shape kinds of the same routines are in the C09/C11 kind matrix, not here (dynamic shapes only)',
 ]
 PARTIAL = [
-    'matmul_elem_eq_sum covers view::matmul for operand ranks >= 2 only: with a 1-d operand the unchanged view throws / is undefined (known finding matmul.v1-1d-operand, matmul_v1_1d_counterexample); matmulv2_eq_def covers all ranks >= 1',
     'refusals: matmul_isSome_iff / dot_isSome_iff only; for view::matmulv2, inner, vecdot, tensordot the unchanged code accepts operands NumPy refuses (contracted extent 1 against n: known findings matmulv2.contraction-extent-broadcast, C16.contraction-extent-broadcast; matmulv2_contraction_counterexample, contraction_extent_counterexample), so no isSome-iff theorem holds for them before the repair',
     'trace_eq_def covers every offset with a non-empty diagonal (-extent(axis1) < offset < extent(axis2), repaired index::diagonal); empty diagonals (sum over a zero-length axis = 0 since fix commit 10b33c2) are compared with NumPy only here; the Lean statement for every offset is trace_eq_sum_diag_any_offset of C08',
 ]
 MANIFEST = dict(
-    text='Proof: 22 Lean theorems over a symbolic term-list model (for every destination index the ordered list of (lhs index, rhs index) products a routine sums): index::shape_matmul = NumPy rule on all pairs (isSome iff accepted); view::matmul (ranks >= 2) and view::matmulv2 (all ranks >= 1, batch broadcasting, 1-d promotion) sum exactly a[..,i,k]*b[..,k,j], k in order; dot, inner, outer, vecdot, tensordot (integer and explicit axes, negative spellings), kron (incl. the closed form of kron_dst_transpose for all ranks), trace (offsets of either sign, non-empty diagonal) equal their NumPy definitions for every rank/extent; view::matmul and view::dot answer Nothing exactly on the operand pairs NumPy refuses (matmul_isSome_iff, dot_isSome_iff). Tied to the C++ on every run by a differential run of all eight routines (element access and eval) + pipeline shape helpers against the model and against NumPy.',
-    note='Lean kernel + propext/Classical.choice/Quot.sound; hand-written model (view combinators reshape/tile/transpose/broadcast-multiply/sum mirrored from the headers), fidelity rests on the correspondence run; broadcast_to index map taken in per-axis form (C06); dynamic-shape arrays only (static/bounded kinds in C09/C11); 3 genuine defects remain known findings (view::matmul with a 1-d operand; view::matmulv2 and inner / vecdot / tensordot broadcast a contracted axis of extent 1 where NumPy raises — repairs proposed in fixes/C16-matmul-1d-operand.diff, fixes/C15-contraction-extent.diff); trace over an empty diagonal is repaired in /repo (fix 10b33c2); the negative-offset defect of index::diagonal is repaired in /repo and modelled as repaired.',
+    text='Proof: 23 Lean theorems over a symbolic term-list model (for every destination index the ordered list of (lhs index, rhs index) products a routine sums): index::shape_matmul = NumPy rule on all pairs (isSome iff accepted); view::matmul and view::matmulv2 (both for all ranks >= 1, batch broadcasting, 1-d promotion on either side) sum exactly a[..,i,k]*b[..,k,j], k in order; dot, inner, outer, vecdot, tensordot (integer and explicit axes, negative spellings), kron (incl. the closed form of kron_dst_transpose for all ranks), trace (offsets of either sign, non-empty diagonal) equal their NumPy definitions for every rank/extent; view::matmul and view::dot answer Nothing exactly on the operand pairs NumPy refuses (matmul_isSome_iff, dot_isSome_iff). Tied to the C++ on every run by a differential run of all eight routines (element access and eval) + pipeline shape helpers against the model and against NumPy.',
+    note='Lean kernel + propext/Classical.choice/Quot.sound; hand-written model (view combinators reshape/tile/transpose/broadcast-multiply/sum mirrored from the headers), fidelity rests on the correspondence run; broadcast_to index map taken in per-axis form (C06); dynamic-shape arrays only (static/bounded kinds in C09/C11); the 1-d operand defect of view::matmul is repaired in /repo (fix C16-matmul-1d-operand) and modelled as repaired (matmul_v1_1d_regression); view::matmul is also run over fixed-dim operand kinds (tuple slice lists); 2 genuine defects remain known findings (view::matmulv2 and inner / vecdot / tensordot broadcast a contracted axis of extent 1 where NumPy raises — repair proposed in fixes/C15-contraction-extent.diff); trace over an empty diagonal is repaired in /repo (fix 10b33c2); the negative-offset defect of index::diagonal is repaired in /repo and modelled as repaired.',
     technique='Lean 4 proofs over symbolic term lists (which (lhs index, rhs index) pairs are summed, in order) for every rank/extent + differential correspondence against the real views (element access and eval) + NumPy oracle')
 
 
@@ -90,13 +89,6 @@ def _args(c):
 
 def _shape(s):
     return [] if s == '[]' else [int(x) for x in s.split(',')]
-
-
-def matmul_v1_1d_operand(c):
-    if not c.req.startswith('matmul '):
-        return False
-    a = _args(c)
-    return a.get('impl') == 'v1' and (len(_shape(a['a'])) == 1 or len(_shape(a['b'])) == 1)
 
 
 def trace_empty_diagonal(c):
@@ -170,7 +162,6 @@ def contraction_extent_broadcast(c):
 
 
 KNOWN_PREDICATES = {
-    'matmul_v1_1d_operand': matmul_v1_1d_operand,
     'matmulv2_contraction_extent_broadcast': matmulv2_contraction_extent_broadcast,
     'contraction_extent_broadcast': contraction_extent_broadcast,
     'trace_empty_diagonal': trace_empty_diagonal,
@@ -241,9 +232,8 @@ def _gen(tier, rng):
         if len(ba) != len(bb) or any(x != y for x, y in zip(ba, bb)):
             tags.append('batch-broadcast')
         nt = a[-1] > 1
-        one_d = len(a) == 1 or len(b) == 1
-        # view::matmul has no working 1-d promotion: off the theorem domain there (model mirrors the failing access)
-        yield Case('matmul impl=v1 a=%s b=%s data=%s' % (fmt(a), fmt(b), m), 'h_c16_mm', oracle=orc, dom=not one_d, nontrivial=nt, tags=tags + ['v1'])
+        # 1-d promotion of view::matmul: repaired (fix C16-matmul-1d-operand), inside the domain of matmul_elem_eq_sum
+        yield Case('matmul impl=v1 a=%s b=%s data=%s' % (fmt(a), fmt(b), m), 'h_c16_mm', oracle=orc, nontrivial=nt, tags=tags + ['v1'])
         yield Case('matmul impl=v2 a=%s b=%s data=%s' % (fmt(a), fmt(b), m), 'h_c16_mm', oracle=orc, nontrivial=nt, tags=tags + ['v2'])
     for a, b in stride_pick(pairs, 400 if quick else 2000):
         yield Case('matmul_helpers a=%s b=%s' % (fmt(a), fmt(b)), 'h_c16_mm', nontrivial=False, tags=['helpers'])
@@ -381,7 +371,7 @@ def _gen(tier, rng):
     yield from random_cases(rng, 60 if quick else 600, cap if quick else 4000)
 
 
-MATMUL_KIND_1D = False      # fixed-dim 1-d operands instantiate only on a tree with fix C16-matmul-1d-operand
+MATMUL_KIND_1D = True       # fixed-dim 1-d operands (fix C16-matmul-1d-operand); 1-d x 1-d with BOTH dims fixed is a number, not a view: left out
 
 
 def matmul_kinds(mm, keep, mode):
@@ -390,7 +380,10 @@ def matmul_kinds(mm, keep, mode):
         sel = [(a, b) for a, b in ok if not (len(a) == 1 and len(b) == 1 and lk == 'fd' and rk == 'fd')]
         if not MATMUL_KIND_1D:
             sel = [(a, b) for a, b in sel if len(a) >= 2 and len(b) >= 2]
-        for a, b in stride_pick(sel, keep):
+        # every pair with a 1-d operand (the promotion branches), a fixed-stride sample of the others
+        one_d = [(a, b) for a, b in sel if len(a) == 1 or len(b) == 1]
+        rest = [(a, b) for a, b in sel if len(a) >= 2 and len(b) >= 2]
+        for a, b in stride_pick(one_d, 2 * keep) + stride_pick(rest, keep):
             m = mode()
             orc = show(np.matmul(mk(a, m, 0), mk(b, m, 1)))
             tags = ['matmul', 'kinds', 'lhs=' + lk, 'rhs=' + rk, 'rank=%d,%d' % (len(a), len(b))]
@@ -432,8 +425,7 @@ def random_cases(rng, n, cap):
             b = bb + [K, rng.randint(1, 7)]
         r = np_try(lambda: np.matmul(mk(a, m, 0), mk(b, m, 1)))
         if ok(r):
-            one_d = len(a) == 1 or len(b) == 1
-            yield Case('matmul impl=v1 a=%s b=%s data=%s' % (fmt(a), fmt(b), m), 'h_c16_mm', oracle=show(r), dom=not one_d, tags=['matmul', 'v1', 'random'])
+            yield Case('matmul impl=v1 a=%s b=%s data=%s' % (fmt(a), fmt(b), m), 'h_c16_mm', oracle=show(r), tags=['matmul', 'v1', 'random'])
             yield Case('matmul impl=v2 a=%s b=%s data=%s' % (fmt(a), fmt(b), m), 'h_c16_mm', oracle=show(r), tags=['matmul', 'v2', 'random'])
         # dot / inner / vecdot
         a = rshape(1, 3)
